@@ -228,8 +228,8 @@ def run_check(prop, tier, verif_seed, n_runs, budget_s, workers, args):
         if name not in cov["reach_probes"]:
             cov["reach_probes"][name] = 0
             zero.append(name)
-    if zero and tier == "thorough":
-        print("warning: reach probes at zero: %s" % ", ".join(sorted(zero)))
+    if zero and (tier == "thorough" or n_eval >= meta.get("quick_runs", 1000)):
+        print("warning: reach probes at zero: %s" % ", ".join(sorted(set(zero))))
     ev = {
         "property_id": prop,
         "tier": tier,
